@@ -1629,7 +1629,10 @@ pub fn lie_check_points(
         .enumerate()
         .map(|(i, h)| {
             let n = start + i as u64 * interval;
-            if n >= pp.lie_from {
+            // the first check point at or above `lie_from`, and `lie_span` of them from there
+            let first = (pp.lie_from + interval - 1) / interval * interval;
+            let again_true = pp.lie_span > 0 && n >= first + pp.lie_span * interval;
+            if n >= pp.lie_from && !again_true {
                 lied = true;
                 lie_value(pp.lie_salt, n)
             } else {
